@@ -244,6 +244,21 @@ def _run(ctx):
                                'parent'),
                  'recursion into a parent without a parent task id',
                  ctx.loc(rc, c))
+    # the walk up to the parents does not depend on this workflow's own
+    # state (it may still be RUNNING because of a parallel branch while an
+    # enclosing workflow has already failed), only on having a parent
+    for n, c in st + rec + mk:
+        facts = sorted((norm(a), t) for a, t in U.guard_atoms(cfg, n))
+        want = [] if (n, c) in st else [('self.wf_ex.task_execution_id',
+                                         True)]
+        r3.check(facts == want,
+                 ctx.construct(rc, extra=U.call_name(c) + ' whatever the '
+                               'state of this workflow'),
+                 '%s in _recursive_rerun is additionally conditioned (%s): '
+                 'enclosing workflows / parent tasks are not put back to '
+                 'RUNNING and the new result of the re-run task is never '
+                 'taken into account' % (U.call_name(c), facts),
+                 ctx.loc(rc, c))
     mt = prog.func('mistral.engine.task_handler.mark_task_running')
     r3.check(any(isinstance(n, ast.Call) and U.call_name(n) == 'set_state'
                  and norm(n.args[0]) == 'states.RUNNING'
